@@ -58,7 +58,9 @@ BOUNDS = {
 }
 OUTSIDE = [
     "that the Newton iteration of subsolv converges / reaches the requested optimality accuracy epsimin (data-dependent trip "
-    "count of a floating-point iteration): NOT decided",
+    "count of a floating-point iteration): NOT decided by the solver; six `subsolv-kkt-concrete-*` regression items run the "
+    "real subsolv on fixed data and compare the returned point with the optimality conditions (evidence kind "
+    "`concrete-regression`, not a solver verdict)",
     "convergence of the outer MMA iteration to the optimum of convex problems and final constraint satisfaction: NOT decided",
     "the Newton direction itself (assembly of AA, bb, back-substitution): the interior invariant is proved for an ARBITRARY "
     "direction, which covers the computed one; that the direction is a descent/Newton direction is not checked",
@@ -120,6 +122,9 @@ def items(tier):
     for n in b["residual"]["n"]:
         for m in b["residual"]["m"]:
             out.append(dict(kind="residual", id="residual-n%d-m%d" % (n, m), n=n, m=m))
+    # concrete regression items (fixed data, real subsolv): optimality conditions of the returned point
+    for (n, m, dv, eps) in [(2, 1, 1, "1e-7"), (3, 2, 1, "1e-7"), (3, 2, 2, "1e-9"), (4, 2, 3, "1e-7"), (5, 3, 2, "1e-8"), (2, 2, 0, "1e-7")]:
+        out.append(dict(kind="subsolv_kkt", id="subsolv-kkt-concrete-n%d-m%d-d%d-eps%s" % (n, m, dv, eps), n=n, m=m, data=dv, epsimin=eps))
     specs = ["scalar", "signal", "variable"]
     for li, lay in enumerate(b["response"]["layouts"]):
         for si in range(3):
@@ -1042,7 +1047,49 @@ def sc_response(V, P, cfg):
 
 
 # ================================================================================================ dispatch
-SCEN = dict(mmasub=sc_mmasub, subsolv=sc_subsolv, subsolv_init=sc_subsolv_init, residual=sc_residual, response=sc_response)
+def sc_subsolv_kkt(V, P, cfg):
+    """Concrete regression items (NOT a solver verdict: fixed data, the real subsolv with the real NumPy, stated as such in
+    the evidence kind `concrete-regression`): the point subsolv returns satisfies the optimality conditions of the
+    sub-problem to the requested accuracy.  subsolv leaves its loop at a barrier parameter in (epsimin, 10 epsimin] with
+    every residual of the perturbed conditions below 0.9 times that parameter, so every residual of the unperturbed
+    conditions is below 20 epsimin; the reference residuals are computed here from the definition of the sub-problem."""
+    import pymoto.common.mma as mm
+    n, m, eps = cfg["n"], cfg["m"], float(cfg["epsimin"])
+    d = _subsolv_data(n, m, exact=None, variant=cfg.get("data", 1))
+    if V.symbolic:
+        from symx import npshim
+        npshim.uninstall()          # plain floats on the real NumPy
+    try:
+        x, y, z, lam, xsi, eta, mu, zet, s = mm.subsolv(eps, d["low"], d["upp"], d["alfa"], d["beta"], d["P"], d["Q"], d["a0"],
+                                                        d["a"], d["b"], d["c"], d["d"])
+    finally:
+        if V.symbolic:
+            npshim.install()
+    x, y, lam, xsi, eta, mu, s = (np.asarray(v, dtype=float).reshape(-1) for v in (x, y, lam, xsi, eta, mu, s))
+    z, zet = float(np.asarray(z).reshape(-1)[0]), float(np.asarray(zet).reshape(-1)[0])
+    P0, P1, Q0, Q1 = d["P"][0], d["P"][1:], d["Q"][0], d["Q"][1:]
+    ux, xl = d["upp"] - x, x - d["low"]
+    res = []
+    for j in range(n):      # stationarity in x_j
+        plam = P0[j] + sum(lam[i] * P1[i, j] for i in range(m))
+        qlam = Q0[j] + sum(lam[i] * Q1[i, j] for i in range(m))
+        res.append(plam / ux[j] ** 2 - qlam / xl[j] ** 2 - xsi[j] + eta[j])
+        res += [xsi[j] * (x[j] - d["alfa"][j]), eta[j] * (d["beta"][j] - x[j])]
+    for i in range(m):
+        g = sum(P1[i, j] / ux[j] + Q1[i, j] / xl[j] for j in range(n))
+        res += [d["c"][i] + d["d"][i] * y[i] - mu[i] - lam[i], g - d["a"][i] * z - y[i] + s[i] - d["b"][i], mu[i] * y[i], lam[i] * s[i]]
+    res += [d["a0"] - zet - sum(d["a"][i] * lam[i] for i in range(m)), zet * z]
+    worst = float(np.max(np.abs(res)))
+    feas = bool(np.all(x >= d["alfa"]) and np.all(x <= d["beta"]) and np.all(np.array([*y, z, *lam, *xsi, *eta, *mu, zet, *s]) >= 0))
+    ok = bool(np.isfinite(worst) and worst <= 20 * eps)
+    if P is not None:
+        P.holds("subsolv-kkt:optimality-conditions-to-20-epsimin", ok, kind="concrete-regression:subsolv-kkt")
+        P.holds("subsolv-kkt:returned-point-feasible", feas, kind="concrete-regression:subsolv-kkt")
+    return dict(worst_over_epsimin=(worst / eps if np.isfinite(worst) else 1e300), feasible=float(feas))
+
+
+SCEN = dict(mmasub=sc_mmasub, subsolv=sc_subsolv, subsolv_init=sc_subsolv_init, residual=sc_residual, response=sc_response,
+            subsolv_kkt=sc_subsolv_kkt)
 
 
 def run_item(cfg, tier):
@@ -1067,6 +1114,9 @@ def replay(cfg, label, env, case):
                     detail="concrete run raised %s: %s" % (type(e).__name__, str(e)[:300]))
     if want_exc is not None:
         return dict(reproduced=False, detail="no exception on the real library")
+    if kind == "subsolv_kkt":
+        bad = not (obs["worst_over_epsimin"] <= 20.0) or not obs["feasible"]
+        return dict(reproduced=bool(bad), detail=dict(worst_kkt_residual_over_epsimin=obs["worst_over_epsimin"], feasible=obs["feasible"]))
     bad, det = obs["_clauses"].evaluate(label)
     if kind == "mmasub" and bad is False:
         # second opinion with the REAL sub-solver instead of the contract stub (only meaningful for the x_new clauses)
